@@ -88,6 +88,25 @@ def extract_constants(c):
         K["c2fixed"] = 0
         c.broken.append("proof obligation: reb_whfast_apply_corrector2 has neither of the two modelled shapes")
     c.cov["corrector2_source_variant"] = "repaired (Uinv, reversed order)" if K["c2fixed"] else "as found (sign flip of a and b: F18)"
+    # the N_var_config block of part2 with keep_unsynchronized: is the variational centre-of-mass drift redone
+    # on the restored p_jh (repaired) or lost with the discarded synchronised copy (as found)?  (Config.vfix)
+    mp2 = re.search(r"void reb_integrator_whfast_part2\(.*?\n\}", src, flags=re.S)
+    p2 = mp2.group(0) if mp2 else ""
+    mrs = re.search(r"memcpy\(p_j,\s*sync_pj,[^;]*;(.*?)ri_whfast->is_synchronized\s*=\s*0;", p2, flags=re.S)
+    if not mrs or len(re.findall(r"memcpy\(sync_pj,\s*p_j,", p2)) != 1:
+        c.broken.append("proof obligation: reb_integrator_whfast_part2: the keep_unsynchronized cache/restore of the N_var_config block was not found")
+    tail = mrs.group(1) if mrs else ""
+    redo = re.findall(r"p_j\[index\]\.([xyz])\s*\+=\s*r->dt/2\.\*p_j\[index\]\.v\1;", tail)
+    if sorted(redo) == ["x", "y", "z"] and "N_var_config" in tail:
+        K["vfix"] = 1
+    elif "+=" not in tail and "for" not in tail:
+        K["vfix"] = 0
+    else:
+        K["vfix"] = 0
+        c.broken.append("proof obligation: reb_integrator_whfast_part2: the code after the p_jh restore of the N_var_config block has neither of the two modelled shapes")
+    if len(re.findall(r"p_j\[index\]\.x\s*\+=\s*r->dt/2\.\*p_j\[index\]\.vx;", p2)) != 1 + K["vfix"]:
+        c.broken.append("proof obligation: reb_integrator_whfast_part2: unexpected number of variational centre-of-mass drifts")
+    c.cov["whfast_var_keep_variant"] = "centre-of-mass drift redone after the restore" if K["vfix"] else "as found (drift lost with keep_unsynchronized: C09:whfast-var-keep-com-drift-lost)"
     # does reb_simulation_integrate_raw synchronise before it changes the sign of dt?
     rsrc = open(os.path.join(common.REPO, "src", "rebound.c")).read()
     m2 = re.search(r"if \(thread_info->tmax != r->t\)\{(.*?)\n    \}", rsrc, flags=re.S)
@@ -852,19 +871,27 @@ def covering_array(family, rng, ncand=60):
     """greedy all-pairs: repeatedly take, from random candidates, the case covering most uncovered pairs"""
     F = family_factors(family)
     names = sorted(F)
-    need = set(p[1:] for p in all_pairs(family)[0])
+    order = [p[1:] for p in all_pairs(family)[0]]      # deterministic order (no set iteration: hash seeds differ per process)
+    need = set(order)
     cases = []
+    ptr = 0
     while need:
+        while order[ptr] not in need:
+            ptr += 1
         best, bestn = None, -1
-        seedp = next(iter(need))            # guarantee progress: candidates contain one uncovered pair
-        for _ in range(ncand):
+        seedp = order[ptr]                  # guarantee progress: candidates contain one uncovered pair
+        legal = 0
+        for _ in range(40 * ncand):
             cs = {f: rng.choice(F[f]) for f in names}
             cs[seedp[0]], cs[seedp[2]] = seedp[1], seedp[3]
             if not case_ok(family, cs):
                 continue
+            legal += 1
             n = sum(1 for i, f in enumerate(names) for g in names[i + 1:] if (f, cs[f], g, cs[g]) in need)
             if n > bestn:
                 best, bestn = cs, n
+            if legal >= ncand:
+                break
         if best is None:
             need.discard(seedp)             # cannot be completed to a legal case: counts as excluded below
             continue
@@ -1082,7 +1109,7 @@ def replay(c, W, exe, ncases, family):
                      nvar=(cs["nvar"] if cs else rng.randint(1, 2)))
             no_testparticles(system)
             system["dims"].append("variational particles (1st order, non-zero)")
-            lines.append("V %d %d 1 0 0 %s" % (o["safe"], o["keep"], " ".join(toks)))
+            lines.append("V %d %d %d 1 0 0 %s" % (o["safe"], o["keep"], W.K["vfix"], " ".join(toks)))
             base = whfast_setup(o)
 
             def setup(s, base=base, nv=o["nvar"]):
@@ -1883,7 +1910,12 @@ def api_sequences(c, W, cfgs):
                     nrev += 1
                 if ta != tu or not err <= tol:
                     key = "C09:integrate-reverse-unsynchronized" if rev_unsync else "api-sequence:" + fam
-                    c.violation(key + (":keep" if modename != "unsafe" else ""), "%s: the call sequence %s in %s mode differs from safe mode by %.3g relative after call %d (integrate kind %s, exact_finish_time=%d, unsynchronised on entry: %s)"
+                    key += (":keep" if modename != "unsafe" else "")
+                    if modename != "unsafe" and "var=" in label and not W.K["vfix"]:
+                        # part2's N_var_config block undoes its own variational centre-of-mass drift when it
+                        # restores the cached p_jh (model: Config.vfix, theorem c09_whfast_variational_keep_loses_…)
+                        key = "C09:whfast-var-keep-com-drift-lost"
+                    c.violation(key, "%s: the call sequence %s in %s mode differs from safe mode by %.3g relative after call %d (integrate kind %s, exact_finish_time=%d, unsynchronised on entry: %s)"
                                 % (label, [p[:2] for p in plan], modename, err, j, kind, ex, unsync_entry),
                                 {"integrator": integ, "label": label, "system": system, "plan": plan, "call_index": j,
                                  "relative_difference": err, "t_safe": ta, "t_unsafe": tu})
@@ -2056,10 +2088,12 @@ def callback_search(c, W, cfgs):
                 continue
             system = tweak(W, gen_system(rng, physics=True), integ, label, "callbacks")
 
-            def run_cb(mode, halve=False):
+            def run_cb(mode, halve=False, n=None, nudge=False):
                 sy = dict(system)
                 if halve:
                     sy["dt"] = system["dt"] / 2
+                if nudge:
+                    sy["particles"] = [p if i != 1 else (p[0], p[1] * (1 + 2.0 ** -50)) + tuple(p[2:]) for i, p in enumerate(system["particles"])]
                 s_ = W.sim(sy, integ, mk(mode))
                 if which in ("pre", "both"):
                     s_.pre_timestep_modifications = drag
@@ -2073,7 +2107,7 @@ def callback_search(c, W, cfgs):
                 if which == "force_vel":
                     s_.additional_forces = force_vel
                     s_.force_is_velocity_dependent = 1
-                for _ in range(nsteps * (2 if halve else 1)):
+                for _ in range((n or nsteps) * (2 if halve else 1)):
                     W.lib.reb_simulation_step(ctypes.byref(s_))
                 W.lib.reb_simulation_synchronize(ctypes.byref(s_))
                 return coords(W, s_)
@@ -2091,6 +2125,21 @@ def callback_search(c, W, cfgs):
                  "both": "pre/post_timestep_modifications editing particles", "readonly": "pre/post_timestep_modifications read-only",
                  "force_pos": "additional_forces (position dependent)", "force_vel": "additional_forces (velocity dependent)"}[which])
             worst[fam] = max(worst.get(fam, 0.0), err if integ != "eos" else err / tol)
+            if not err <= tol and integ != "eos" and err <= 1e-6:
+                # borderline: an unstable trajectory (e.g. the non-translation-invariant test force pulling a planet off a
+                # drifting star) amplifies rounding differences.  A defect is systematic: visible after 30 steps (the
+                # seeded changes and C09:mercurius-additional-forces-frame are >= 1e-8 there); amplification shows in
+                # a last-bit perturbation of the safe run growing to a comparable size
+                n_early = 30
+                ea, eu = run_cb("safe", n=n_early), run_cb("unsafe", n=n_early)
+                err_early = max(max(abs(a[k] - b[k]) / (sx if k < 3 else sv) for k in range(6)) for a, b in zip(ea, eu))
+                cn = run_cb("safe", nudge=True)
+                eend = max(max(abs(a[k] - b[k]) / (sx if k < 3 else sv) for k in range(6)) for a, b in zip(ca, cn))
+                c.cov.setdefault("chaos_controls", []).append({"label": label + " callbacks " + which, "difference": err, "difference_after_30": err_early,
+                                                               "last_bit_perturbation_grows_to": eend})
+                if eend >= 1e-3 * err and err_early <= 3e-11:
+                    c.cov["inconclusive_chaotic_runs"] = c.cov.get("inconclusive_chaotic_runs", 0) + 1
+                    continue
             if not err <= tol:
                 c.violation("C09:mercurius-additional-forces-frame" if (integ == "mercurius" and which.startswith("force")) else "callback:%s:%s" % (fam, which),
                             "%s: with callbacks '%s' installed (pre/post/both: a drag edit of the velocities; readonly: energy(); force_*: additional_forces), unsafe mode + synchronize differs from safe mode by %.3g relative after %d steps"
@@ -2605,7 +2654,16 @@ def entry_smoke(c, W):
                 cg = coords(W, cl)
                 sc = max(abs(v) for q in cw for v in q)
                 e_ = max(abs(a[k] - b[k]) for a, b in zip(cw, cg) for k in range(6)) / sc
-                if not e_ <= (1e-10 if integ == "mercurius" else 1e-3):
+                tol_ = 1e-10
+                if integ == "eos":
+                    # yardstick: the scheme's own truncation error over these 8 steps (safe mode at dt vs dt/2)
+                    h_ = dict(system)
+                    h_["dt"] = system["dt"] / 2
+                    T1, T2 = W.sim(system, integ, mkset("safe")), W.sim(h_, integ, mkset("safe"))
+                    T1.steps(8)
+                    T2.steps(16)
+                    tol_ = 10 * max(abs(a[k] - b[k]) for a, b in zip(coords(W, T1), coords(W, T2)) for k in range(6)) / sc + 1e-10
+                if not e_ <= tol_:
                     c.violation("entry-point:restore:%s:%s" % (integ, name), "%s: a simulation restored through %s (synchronised by it) and continued differs from the original by %.3g" % (integ, name, e_),
                                 {"integrator": integ, "system": system, "path": name})
                 continue
